@@ -86,7 +86,7 @@ struct Run {
 	uint64_t shash = 1469598103934665603ULL; long steps = 0, handovers = 0;
 	int cur_sender = -1; std::string cur_bpay; int cur_bsent = 0;     // Broadcast in progress
 	long sends_in_call = 0, nonchatter_sends = 0, deliv_in_call = 0;
-	bool quiescent = false, capped = false, flood = false; long retrieves = 0;
+	bool quiescent = false, capped = false, flood = false; long retrieves = 0; int react_mode = -1;   // directed runs: 0 ignore, 1 answer with the right payload, 2 wrong
 	std::map<std::string, long long> cnt;
 	// ---- monitor state
 	std::vector<std::vector<int>> nb;                                 // nb[p][ctx] broadcasts so far
@@ -342,6 +342,7 @@ void Run::react(int b, int from, const Tup &f, long act) {
 	std::string right = (it != known_ix.end()) ? known[it->second].pays[arng.below(known[it->second].pays.size())] : "";
 	std::string wrong = right.empty() ? "9999999999999" : wrong_variant(right, 900 + (int)arng.below(50));
 	int c = (int)arng.below(100);
+	if (react_mode == 0) return; if (react_mode == 1) c = 40; if (react_mode == 2) c = 60;
 	Tup g = f;
 	if (act == 4) {
 		g[3] = "5"; cnt["adv_react_request"]++;
@@ -786,6 +787,54 @@ static void directed_request_then_payload(CaseAcc &acc, uint64_t sa, uint64_t sb
 	acc.absorb(R, "directed", variant + 2 * fifo + 4 * victim);
 }
 
+// hands over oldest-first every message whose link head is not held, until nothing eligible is left
+template <class F> static void pump(Run &R, F hold) {
+	for (long guard = 0; guard < 20000; guard++) {
+		std::vector<std::pair<int, int>> all = links_oldest_first(R); bool did = false;
+		for (auto &l : all) { const WMsg &m = R.msgs[R.q[l.first][l.second].front()]; if (hold(l.first, l.second, m)) continue; R.handover(l.first, l.second, -1); did = true; break; }
+		if (!did) { bool idle = false; for (int p : R.honest_ids) if (!R.rbc[p]->deliver_buf.empty()) { size_t before = R.ev.size(); R.deliver_call(p, -1); if (R.ev.size() != before) idle = true; } if (!idle) return; }
+	}
+	R.capped = true;
+}
+static Tup tup(const Run &R, int c, int j, long s, int act, const std::string &pay) { return Tup{R.cfg.ctx[c].id, std::to_string(j), std::to_string(s), std::to_string(act), pay}; }
+
+// ---- directed: Byzantine sender 3 on FIFO channel A lets P = 0 acknowledge slot 2 before slot 1, P retrieves
+// slot 1 with l-retrieve/l-deliver from parties that delivered it; the late ready quorum for slot 1 is then obsolete
+static void directed_lretrieve(CaseAcc &acc, uint64_t sa, uint64_t sb) {
+	Cfg c = fixed_cfg(4, 1, {3}, 1, 0, {});
+	Run R(c, sa, sb); R.react_mode = 1;
+	for (int p : R.honest_ids) pre_ops(R, p);
+	std::string v1 = std::to_string(pay_make(3, 1, 1, 1)), v2 = std::to_string(pay_make(3, 1, 2, 1));
+	for (int x : {1, 2}) { R.inject(3, x, tup(R, 1, 3, 1, 1, v1)); R.inject(3, x, tup(R, 1, 3, 1, 2, Hdig(v1))); R.inject(3, x, tup(R, 1, 3, 1, 3, Hdig(v1))); }
+	for (int x : {0, 1, 2}) { R.inject(3, x, tup(R, 1, 3, 2, 1, v2)); R.inject(3, x, tup(R, 1, 3, 2, 2, Hdig(v2))); R.inject(3, x, tup(R, 1, 3, 2, 3, Hdig(v2))); }
+	pump(R, [](int a, int b, const WMsg &) { return a == 0 && b == 0; });      // party 0's messages to itself are in flight
+	long ld = R.cnt["path_lretrieve_ldeliver_delivery"];
+	pump(R, [](int, int, const WMsg &) { return false; });
+	if (ld > 0) count("directed_lretrieve_ldeliver_delivery"); else R.bad("C14/harness/directed", "directed schedule did not reach the l-deliver delivery");
+	finish_scripted(R);
+	acc.absorb(R, "directed", 100);
+}
+
+// ---- directed: parties on different channels.  P = 0 is on FIFO channel A; parties 1 and 2 have moved on to channel C.
+// Byzantine sender 3 gives slot 1 of channel A only to parties 1 and 2 (never enough for a quorum) and completes slot 2.
+// P asks for slot 1 with l-retrieve.  Totality/agreement must survive whatever the parties on channel C answer.
+static void directed_cross_channel_retrieve(CaseAcc &acc, uint64_t sa, uint64_t sb, int fifoC, int variant) {
+	Cfg c = fixed_cfg(4, 1, {3}, 1, 2, {});           // template 2: S1 b U S3 b U R1 b U
+	c.ctx[3].fifo = fifoC;
+	Run R(c, sa, sb); R.react_mode = variant == 0 ? 1 : 2;
+	pre_ops(R, 0);                                     // party 0: setID(A)
+	for (int p : {1, 2}) { pre_ops(R, p); R.api_step(p); pre_ops(R, p); }   // parties 1,2: setID(A) unsetID setID(C)
+	std::string v1 = std::to_string(pay_make(3, 1, 1, 1)), v2 = std::to_string(pay_make(3, 1, 2, 1)), w1 = std::to_string(pay_make(3, 3, 1, 1));
+	if (fifoC) for (int x : {0, 1, 2}) { R.inject(3, x, tup(R, 3, 3, 1, 1, w1)); R.inject(3, x, tup(R, 3, 3, 1, 2, Hdig(w1))); R.inject(3, x, tup(R, 3, 3, 1, 3, Hdig(w1))); }   // one complete slot on C
+	for (int x : {1, 2}) R.inject(3, x, tup(R, 1, 3, 1, 1, v1));
+	for (int x : {0, 1, 2}) { R.inject(3, x, tup(R, 1, 3, 2, 1, v2)); R.inject(3, x, tup(R, 1, 3, 2, 2, Hdig(v2))); R.inject(3, x, tup(R, 1, 3, 2, 3, Hdig(v2))); }
+	pump(R, [](int, int, const WMsg &) { return false; });
+	R.react_mode = 0;                                  // the Byzantine party is silent from here on
+	count("directed_cross_channel_runs");
+	finish_scripted(R);
+	acc.absorb(R, "directed", 200 + 2 * fifoC + variant);
+}
+
 // ================================================================ cases
 struct RClass { int sched, n, t, fmin, fmax, reps_q; };
 int main(int argc, char **argv) {
@@ -864,6 +913,8 @@ int main(int argc, char **argv) {
 			CaseAcc acc;
 			for (int fifo = 0; fifo < 2; fifo++) for (int victim = 0; victim < 3; victim++) for (int variant = 0; variant < 2; variant++)
 				directed_request_then_payload(acc, ctx.seed * 31ULL + 1, 5, fifo, victim, variant);
+			directed_lretrieve(acc, ctx.seed * 31ULL + 2, 6);
+			for (int fifoC = 0; fifoC < 2; fifoC++) for (int variant = 0; variant < 2; variant++) directed_cross_channel_retrieve(acc, ctx.seed * 31ULL + 3, 7, fifoC, variant);
 			case_end(d.str(), acc.evals > 0, acc.sample, acc.evals, (long long)acc.hashes.size());
 		}
 	}
